@@ -2,6 +2,7 @@ package main
 
 import (
 	"fmt"
+	"go/ast"
 	"go/types"
 	"sort"
 	"strings"
@@ -168,7 +169,9 @@ func init() {
 
 func init() {
 	explorations["lock"] = func(p *Prog) {
-		acc := p.lockAnalysis(func(pk string) bool { return pk == modPath || pk == modPath+"/http3" || pk == modPath+"/internal/flowcontrol" })
+		acc := p.lockAnalysis(func(pk string) bool {
+			return pk == modPath || pk == modPath+"/http3" || pk == modPath+"/internal/flowcontrol"
+		})
 		// group by field: owner struct's mutex fields
 		type stat struct {
 			under, total int
@@ -418,4 +421,43 @@ func scopeFuncByNameInit(p *Prog) map[string]*ssa.Function {
 		}
 	}
 	return scopeFuncByName
+}
+
+func init() {
+	explorations["rangemut"] = func(p *Prog) {
+		// range over a selector (x.f) whose body assigns to the same selector
+		for _, pk := range p.Pkgs {
+			if !InRepo(pk.PkgPath) {
+				continue
+			}
+			for _, file := range pk.Syntax {
+				if strings.HasSuffix(p.Fset.Position(file.Pos()).Filename, "_test.go") {
+					continue
+				}
+				ast.Inspect(file, func(n ast.Node) bool {
+					rs, ok := n.(*ast.RangeStmt)
+					if !ok {
+						return true
+					}
+					sel := types.ExprString(rs.X)
+					if !strings.Contains(sel, ".") {
+						return true
+					}
+					ast.Inspect(rs.Body, func(m ast.Node) bool {
+						as, ok := m.(*ast.AssignStmt)
+						if !ok {
+							return true
+						}
+						for _, l := range as.Lhs {
+							if types.ExprString(l) == sel {
+								fmt.Printf("%s: range %s; body assigns it at %s\n", p.Pos(rs.Pos()), sel, p.Pos(as.Pos()))
+							}
+						}
+						return true
+					})
+					return true
+				})
+			}
+		}
+	}
 }
